@@ -394,6 +394,118 @@ def c11_constants(srcdir):
     return C
 
 
+def c19_glue_constants(srcdir):
+    """C19: the glue that carries the login challenge from the server's version reply into the
+    client's login.  client.c handshake_version(): the element type of in[], the minimum reply
+    length, the four OR-ed operands of `payload = ...` (index, mask present?, mask, (uint32_t)
+    cast present?, shift), the index userid is read from.  iodined.c send_version_response():
+    size of out[], the VACK tag, the four `out[i] = ((payload >> s) & m);` stores and the userid
+    store.  The types (uint32_t payload, int *seed, int users[].seed) and the call chain
+    (rand() -> send_version_response; handshake_version -> handshake_login / handshake_raw_udp
+    -> send_raw_udp_login) are anchors without a constant.  Any other shape raises."""
+    C = {}
+    num = r'(0[xX][0-9a-fA-F]+|\d+)'
+    cl = strip_comments(read(srcdir, 'client.c'))
+
+    def need(text, pat, what, fname):
+        m = re.search(pat, text, flags=re.S)
+        if not m:
+            raise TranslatorError('translator: anchor %s not found in %s' % (what, fname))
+        return m
+
+    need(cl, r'\nhandshake_version\s*\(\s*int\s+dns_fd\s*,\s*int\s*\*\s*seed\s*\)', 'handshake_version(int dns_fd, int *seed)', 'client.c')
+    hv = _func_body(cl, 'handshake_version', 'client.c')
+    m = need(hv, r'\b((?:(?:un)?signed\s+)?char|uint8_t|int8_t)\s+in\s*\[\s*\d+\s*\]\s*;', 'declaration of in[] in handshake_version', 'client.c')
+    ty = ' '.join(m.group(1).split())
+    C['VACK_CLI_SIGNED'] = 0 if ty in ('unsigned char', 'uint8_t') else 1
+    need(hv, r'\buint32_t\s+payload\s*;', 'uint32_t payload in handshake_version', 'client.c')
+    m = need(hv, r'if\s*\(\s*read\s*>=\s*(\d+)\s*\)\s*\{\s*payload\s*=\s*(.*?);', 'if (read >= N) { payload = ...; in handshake_version', 'client.c')
+    C['VACK_CLI_MINLEN'] = int(m.group(1))
+    expr = re.sub(r'\s+', '', m.group(2))
+
+    def strip_outer(e):
+        while e.startswith('(') and e.endswith(')'):
+            depth = 0
+            for i, ch in enumerate(e):
+                depth += ch == '('
+                depth -= ch == ')'
+                if depth == 0 and i < len(e) - 1:
+                    return e
+            e = e[1:-1]
+        return e
+
+    def split_or(e):
+        parts, depth, cur = [], 0, ''
+        for ch in e:
+            depth += ch == '('
+            depth -= ch == ')'
+            if ch == '|' and depth == 0:
+                parts.append(cur)
+                cur = ''
+            else:
+                cur += ch
+        return parts + [cur]
+
+    idx, masked, mask, cast, shift = [], [], [], [], []
+    for op in split_or(strip_outer(expr)):
+        o = strip_outer(op)
+        c = 0
+        if o.startswith('(uint32_t)'):
+            c = 1
+            o = o[len('(uint32_t)'):]
+        mm = (re.fullmatch(r'\(in\[(\d+)\]&' + num + r'\)(?:<<(\d+))?', o) or
+              re.fullmatch(r'in\[(\d+)\]&' + num + r'()', strip_outer(o)))
+        if mm:
+            i, k, sh, has = int(mm.group(1)), int(mm.group(2), 0), int(mm.group(3) or 0), 1
+        else:
+            mm = re.fullmatch(r'in\[(\d+)\](?:<<(\d+))?', o) or re.fullmatch(r'\(in\[(\d+)\]\)(?:<<(\d+))?', o)
+            if not mm:
+                raise TranslatorError('translator: operand %r of payload = ... in handshake_version (client.c) is not of the form '
+                                      '[(uint32_t)] (in[i] [& mask]) [<< shift]' % op)
+            i, k, sh, has = int(mm.group(1)), 0, int(mm.group(2) or 0), 0
+        idx.append(i)
+        masked.append(has)
+        mask.append(k)
+        cast.append(c)
+        shift.append(sh)
+    C['VACK_CLI_IDX'], C['VACK_CLI_MASKED'], C['VACK_CLI_MASK'] = idx, masked, mask
+    C['VACK_CLI_CAST'], C['VACK_CLI_SHIFT'] = cast, shift
+    m = need(hv, r'strncmp\s*\(\s*"VACK"\s*,\s*in\s*,\s*4\s*\)\s*==\s*0\s*\)\s*\{\s*\*\s*seed\s*=\s*payload\s*;\s*userid\s*=\s*in\s*\[\s*(\d+)\s*\]\s*;',
+             'VACK branch "*seed = payload; userid = in[N];" of handshake_version', 'client.c')
+    C['VACK_CLI_UID_IDX'] = int(m.group(1))
+    ch = _func_body(cl, 'client_handshake', 'client.c')
+    need(ch, r'handshake_version\s*\(\s*dns_fd\s*,\s*&\s*seed\s*\)\s*;.*?handshake_login\s*\(\s*dns_fd\s*,\s*seed\s*\)\s*;.*?handshake_raw_udp\s*\(\s*dns_fd\s*,\s*seed\s*\)',
+         'client_handshake passing seed from handshake_version to handshake_login and handshake_raw_udp', 'client.c')
+    need(_func_body(cl, 'handshake_login', 'client.c'), r'login_calculate\s*\(\s*login\s*,\s*16\s*,\s*password\s*,\s*seed\s*\)\s*;',
+         'login_calculate(login, 16, password, seed) in handshake_login', 'client.c')
+    need(_func_body(cl, 'handshake_raw_udp', 'client.c'), r'send_raw_udp_login\s*\(\s*dns_fd\s*,\s*seed\s*\)\s*;',
+         'send_raw_udp_login(dns_fd, seed) in handshake_raw_udp', 'client.c')
+
+    sv = strip_comments(read(srcdir, 'iodined.c'))
+    body, _ = _block_after(sv, r'send_version_response\s*\(\s*int\s+fd\s*,\s*version_ack_t\s+ack\s*,\s*uint32_t\s+payload\s*,\s*int\s+userid\s*,\s*struct\s+query\s*\*\s*q\s*\)\s*\{',
+                           'send_version_response(int fd, version_ack_t ack, uint32_t payload, int userid, struct query *q)', 'iodined.c')
+    m = need(body, r'\bchar\s+out\s*\[\s*(\d+)\s*\]\s*;', 'char out[N] in send_version_response', 'iodined.c')
+    C['VACK_SRV_OUTLEN'] = int(m.group(1))
+    m = need(body, r'case\s+VERSION_ACK\s*:\s*strncpy\s*\(\s*out\s*,\s*("(?:[^"\\]|\\.)*")\s*,\s*sizeof\s*\(\s*out\s*\)\s*\)\s*;',
+             'case VERSION_ACK: strncpy(out, "...", sizeof(out)) in send_version_response', 'iodined.c')
+    C['VACK_SRV_TAG'] = parse_c_string_literals(m.group(1))
+    st = re.findall(r'out\s*\[\s*(\d+)\s*\]\s*=\s*\(\s*\(\s*payload\s*(?:>>\s*(\d+)\s*)?\)\s*&\s*' + num + r'\s*\)\s*;', body)
+    if len(st) != 4 or len(re.findall(r'\bpayload\b', body)) != 4:
+        raise TranslatorError('translator: send_version_response (iodined.c) does not store payload as four "out[i] = ((payload >> s) & m);"')
+    C['VACK_SRV_IDX'] = [int(a) for a, _, _ in st]
+    C['VACK_SRV_SHIFT'] = [int(b or 0) for _, b, _ in st]
+    C['VACK_SRV_MASK'] = [int(c, 0) for _, _, c in st]
+    m = need(body, r'out\s*\[\s*(\d+)\s*\]\s*=\s*userid\s*&\s*' + num + r'\s*;', 'out[N] = userid & m in send_version_response', 'iodined.c')
+    C['VACK_SRV_UID_IDX'], C['VACK_SRV_UID_MASK'] = int(m.group(1)), int(m.group(2), 0)
+    need(body, r'write_dns\s*\(\s*fd\s*,\s*q\s*,\s*out\s*,\s*sizeof\s*\(\s*out\s*\)\s*,', 'write_dns(fd, q, out, sizeof(out), ..) in send_version_response', 'iodined.c')
+    need(sv, r'users\s*\[\s*userid\s*\]\s*\.\s*seed\s*=\s*rand\s*\(\s*\)\s*;.*?send_version_response\s*\(\s*dns_fd\s*,\s*VERSION_ACK\s*,\s*users\s*\[\s*userid\s*\]\s*\.\s*seed\s*,\s*userid\s*,\s*q\s*\)\s*;',
+         'users[userid].seed = rand(); ... send_version_response(dns_fd, VERSION_ACK, users[userid].seed, userid, q)', 'iodined.c')
+    need(sv, r'login_calculate\s*\(\s*logindata\s*,\s*16\s*,\s*password\s*,\s*users\s*\[\s*userid\s*\]\s*\.\s*seed\s*\)\s*;',
+         'login_calculate(logindata, 16, password, users[userid].seed) in the login handler', 'iodined.c')
+    need(strip_comments(read(srcdir, 'user.h')), r'\bint\s+seed\s*;', 'int seed in struct tun_user', 'user.h')
+    return C
+
+
 def coq_list(xs):
     return '[' + '; '.join(str(x) for x in xs) + ']'
 
@@ -503,6 +615,13 @@ def generate(srcdir):
         C.update(c05_constants(srcdir))
     except TranslatorError as e:
         c05_err = str(e)
+    # C19 glue (version reply -> login) anchors are local to C19 in the same way (LoginGlue.v then
+    # fails to build, which the C19 check reports)
+    c19_err = None
+    try:
+        C.update(c19_glue_constants(srcdir))
+    except TranslatorError as e:
+        c19_err = str(e)
 
     lines = []
     lines.append('(* GENERATED by tools/gen_consts.py from the repository sources on every run. DO NOT EDIT. *)')
@@ -528,8 +647,12 @@ def generate(srcdir):
         lines.append('(* C05 constants omitted: %s *)' % c05_err.replace('*)', '* )'))
     if c11_err:
         lines.append('(* C11 constants omitted: %s *)' % c11_err.replace('*)', '* )'))
+    if c19_err:
+        lines.append('(* C19 version-reply glue constants omitted: %s *)' % c19_err.replace('*)', '* )'))
     lines.append('')
     text = '\n'.join(lines)
+    if c19_err:
+        C['C19_GLUE_ERROR'] = c19_err      # for checks/c19.py only; not a Coq constant
     if c13_err:
         C['C13_ERROR'] = c13_err      # for checks/c13.py only; not a Coq constant
     if c11_err:
